@@ -9,7 +9,7 @@ import engine_check  # noqa: E402
 import monitors_engine as M  # noqa: E402
 from gen_engine import dumps  # noqa: E402
 
-LEAN_MODULES = ["KmipModel.Props.C03", "KmipModel.Props.C03Engine"]
+LEAN_MODULES = ["KmipModel.Props.C03", "KmipModel.Props.C03Engine", "KmipModel.Props.C20Engine"]
 RULE = ("decision table: every cell of permission x owner/other x groups x section presence x entry presence is "
         "evaluated on the real _is_allowed_by_operation_policy, on the Lean model and on an independent reading of "
         "the property text; histories: seeded adaptive generation (identities, built-in + generated policies, all "
